@@ -5,7 +5,11 @@ SPEC['C01'] = ('Top-down require returns what a from-scratch build would return'
   ('C01_reuse_needs_all_consistent_partial', 'Local', 'check_deps_inconsistent',
    'partial: a recorded resource dependency whose checker reports Inconsistent ends validation with "inconsistent" (no reuse)'),
 ], 'PARTIAL. The full statement (incremental = from-scratch for every program of the class and every history) is decided by the correspondence run and the fresh-instance oracle; the staged proof (Validity, valid_replay) is not finished. See DESIGN.md section 6 C01.')
-SPEC['C02'] = ('Top-down build does no unnecessary work', ['Local', 'Local2'], [
+SPEC['C02'] = ('Top-down build does no unnecessary work', ['Local', 'Local2', 'History', 'ExecInv', 'ExecSession'], [
+  ('C02_at_most_once_per_session', 'ExecSession', 'session_td_at_most_once',
+   'for ALL programs, checkers, fuel, stores satisfying the store invariant (every reachable store does: C06_store_invariant_all_histories) and ALL sessions of requires: the session event stream contains no task execution twice (also when the session ends in an abort)'),
+  ('C02_executed_only_if_not_yet_consistent', 'ExecSession', 'session_require_execs',
+   'every task executed by a require was not yet consistent (checked or executed) in this session when the require started, is executed once, and is consistent when the require returns'),
   ('C02_memo', 'Local', 'make_consistent_memo', 'a task already made consistent in this session is returned from the cache: no event, no state change, hence no second execution'),
   ('C02_marks_consistent', 'Local2', 'make_consistent_returns_cached', 'every completed make_task_consistent marks the task consistent (so C02_memo applies to every later require in the session)'),
   ('C02_consistent_dep_continues', 'Local', 'check_deps_consistent', 'a dependency reported Consistent by its own checker does not stop validation'),
@@ -39,11 +43,17 @@ SPEC['C06'] = ('Overlapping writes are always detected', ['Local', 'History'], [
   ('C06_written_to_rejected', 'Local', 'sess_written_to_rejected', 'written_to aborts as well (the resource was already modified through create_writer)'),
   ('C06_abort_only_then', 'Local', 'sess_write_abort_only', 'a write aborts with overlap/hidden only when validate_write diagnoses it'),
 ], 'The single-writer invariant is proved over whole histories through the generic invariant principle (Inv.v, StoreInv.v, History.v); the only excluded outcome is the model-only abort ABug 4 (graph search fuel).')
-SPEC['C07'] = ('Cyclic task requirements are detected instead of recursing', ['Local', 'History'], [
+SPEC['C07'] = ('Cyclic task requirements are detected instead of recursing', ['Local', 'History', 'ExecInv', 'ExecSession'], [
+  ('C07_require_of_task_on_stack_aborts', 'ExecInv', 'require_on_stack_aborts',
+   'the execution stack t :: S (t executing; each task below it requires the one above through a recorded edge): requiring ANY task on the stack, at any distance, aborts with a cyclic dependency before make_task_consistent is entered (ABug 4 = model-only graph search fuel)'),
+  ('C07_no_task_entered_twice', 'ExecSession', 'session_td_at_most_once',
+   'over whole sessions of requires, including the aborted ones: no task is executed a second time'),
+  ('C07_stack_discipline', 'ExecInv', 'make_consistent_td_spec',
+   'the induction behind both: make_task_consistent entered below a stack S never touches the recorded dependencies of a stack task, never executes or marks a stack task, and executes only tasks that were not consistent'),
   ('C07_dependency_graph_acyclic_all_histories', 'History', 'store_acyclic', 'in every reachable store (C06_store_invariant_all_histories) the recorded dependency graph has no cycle'),
   ('C07_cycle_aborts_before_execution', 'Local', 'require_cycle_aborts',
    'if reserving the require edge is rejected as a cycle, require aborts with a cyclic dependency whatever make_task_consistent would do: it is never entered'),
-], 'Together with C10 (add_edge rejects exactly when the destination reaches the source) this gives detection for cycles of any length; no-re-entry over whole builds is decided by correspondence + oracle.')
+], 'Together with C10 (add_edge rejects exactly when the destination reaches the source) this gives detection for cycles of any length; no re-entry is proved over whole top-down sessions (ExecInv.v); for bottom-up builds it is decided by correspondence + oracle.')
 SPEC['C08'] = ('Recorded dependencies are exactly those of the latest execution', ['Findings', 'Local2'], [
   ('C08_general_refuted', 'Findings', 'C08_general_refuted', 'recorded finding (O7): with two different checkers on one target only the last require checker is kept'),
   ('C08_require_records_checker_and_stamp', 'Local2', 'update_require_dependency_done', 'a completed require records exactly DRequire t c stamp on the edge from the executing task'),
